@@ -107,9 +107,13 @@ func init() {
 		Body: func(e *Env) {
 			rng := e.Rng("c17")
 			n := 40 + rng.Intn(260)
-			p := pqWorkload(e, false, n, func(p *PQ, g *PQGen) {
+			small := rng.Intn(3) == 0 // small bounded file: flushes fail when the file is full
+			p := pqWorkload(e, small, n, func(p *PQ, g *PQGen) {
 				p.CheckCounters = true
 				g.WAck, g.WReopen, g.WFlush = 14, 3, 10
+				if small {
+					g.WAck, g.WRead = 4, 20 // fill faster than it is drained
+				}
 			})
 			pqFinish(e, p)
 			if !e.Failed() && p.Q != nil {
